@@ -315,19 +315,25 @@ type typeGuesser struct {
 }
 
 func (g *typeGuesser) Guess() (SchemaType, error) {
-	m := map[SchemaType]func() bool{
-		SchemaTypeString:  g.isString,
-		SchemaTypeInteger: g.isInteger,
-		SchemaTypeFloat:   g.isFloat,
-		SchemaTypeBoolean: g.isBoolean,
-		SchemaTypeObject:  g.isObject,
-		SchemaTypeArray:   g.isArray,
-		SchemaTypeNull:    g.isNull,
+	// The predicates are not mutually exclusive (`"a.b"` looks like a float to
+	// isFloat), so they are tried in a fixed order, strings first - the same
+	// order json.GuessData.LiteralJsonType uses.
+	m := []struct {
+		t  SchemaType
+		fn func() bool
+	}{
+		{SchemaTypeString, g.isString},
+		{SchemaTypeBoolean, g.isBoolean},
+		{SchemaTypeNull, g.isNull},
+		{SchemaTypeInteger, g.isInteger},
+		{SchemaTypeFloat, g.isFloat},
+		{SchemaTypeObject, g.isObject},
+		{SchemaTypeArray, g.isArray},
 	}
 
-	for t, fn := range m {
-		if fn() {
-			return t, nil
+	for _, c := range m {
+		if c.fn() {
+			return c.t, nil
 		}
 	}
 	return SchemaTypeUndefined, errs.ErrUnableToDetermineTheTypeOfJsonValue.F()
